@@ -111,6 +111,11 @@ def manufactured_deck(rnd, nslides=3):
         if (rnd.random() < 0.5 and i > 0) or (i == 0 and rnd.random() < 0.15) or i == nslides - 1:
             # (notes mostly on later slides: notesSlide numbers then differ from the numbers of the slides they belong to)
             s.notes_slide.notes_text_frame.text = "notes %d" % (i + 1)
+    jump = nslides > 1 and rnd.random() < 0.4
+    if jump:
+        # a shape on the first slide that jumps to the last one (the last slide is then reachable from that slide too)
+        sh = prs.slides[0].shapes.add_shape(1, 0, 0, 914400, 914400)
+        sh.click_action.target_slide = prs.slides[nslides - 1]
     blank_link = rnd.random() < 0.4
     if blank_link:
         rn = prs.slides[0].shapes[0].text_frame.paragraphs[0].add_run()
@@ -222,6 +227,23 @@ def manufactured_deck(rnd, nslides=3):
                             zf.writestr(name_, blob_)
                     data = buf.getvalue()
                     break
+    if rnd.random() < 0.3:
+        # XML comments among the children of the id lists and of the slides' shape trees (a generated or hand-edited deck):
+        # they are no elements - counts, positions and iterations are over elements
+        pk = opcx.Pkg.from_bytes(data)
+        out = dict(pk.members)
+        for name in sorted(pk.members):
+            if name == "ppt/presentation.xml" or re.fullmatch(r"ppt/slides/slide\d+\.xml", name):
+                root = etree.fromstring(pk.members[name], opcx.PLAIN)
+                for el in list(root.iter()):
+                    if isinstance(el.tag, str) and el.tag.rsplit("}", 1)[1] in ("sldIdLst", "sldMasterIdLst", "spTree", "txBody", "p") and rnd.random() < 0.7:
+                        el.insert(rnd.choice([0, 0, len(el)]), etree.Comment(" generated "))
+                out[name] = etree.tostring(root, xml_declaration=True, encoding="UTF-8", standalone=True)
+        buf = io.BytesIO()
+        with zipfile.ZipFile(buf, "w", zipfile.ZIP_DEFLATED) as zf:
+            for name_, blob_ in out.items():
+                zf.writestr(name_, blob_)
+        data = buf.getvalue()
     if rnd.random() < 0.3 and nslides > 1:
         # a slide "deleted" the way the widespread recipe does it: its p:sldId is gone, its relationship (and part) stays
         pk = opcx.Pkg.from_bytes(data)
@@ -229,10 +251,19 @@ def manufactured_deck(rnd, nslides=3):
         root = etree.fromstring(pk.members[pres[1:]], opcx.PLAIN)
         sld = root.findall("{%s}sldIdLst/{%s}sldId" % (P, P))
         if len(sld) > 1:
-            victim = sld[rnd.randrange(len(sld))]
+            victim = sld[-1] if jump else sld[rnd.randrange(len(sld))]
             victim.getparent().remove(victim)
             out = dict(pk.members)
             out[pres[1:]] = etree.tostring(root, xml_declaration=True, encoding="UTF-8", standalone=True)
+            if jump and rnd.random() < 0.6:
+                # deleted "properly" - the presentation's relationship is gone as well - but the jump link of the first slide
+                # still leads to it: the part stays in the package
+                item = opcx.rels_item_name(pres)
+                rr = etree.fromstring(out[item], opcx.PLAIN)
+                for rel in list(rr):
+                    if rel.get("Id") == victim.get("{%s}id" % opcx.NS_R):
+                        rr.remove(rel)
+                out[item] = etree.tostring(rr, xml_declaration=True, encoding="UTF-8", standalone=True)
             buf = io.BytesIO()
             with zipfile.ZipFile(buf, "w", zipfile.ZIP_DEFLATED) as zf:
                 for name_, blob_ in out.items():
@@ -636,13 +667,13 @@ class Run:
         sldIdLst = prs.part._element.find("{%s}sldIdLst" % P)
         cur = {}
         if sldIdLst is not None:
-            vals = [str(int(s.get("id"))) if (s.get("id") or "").isdigit() else s.get("id") for s in sldIdLst]
+            vals = [str(int(s.get("id"))) if (s.get("id") or "").isdigit() else s.get("id") for s in sldIdLst if isinstance(s.tag, str)]
             for v, c in Counter(vals).items():
                 if c > 1 and v not in self.sld_dups:
                     self.sld_dups.add(v)
                     if opname != "open":  # duplicates injected into the start state are baseline
                         self.report("C06", "duplicate-slide-id", "op %s: slide id %s occurs %d times" % (opname, v, c))
-            for s in sldIdLst:
+            for s in (x for x in sldIdLst if isinstance(x.tag, str)):
                 rid = s.get("{%s}id" % opcx.NS_R)
                 try:
                     part = prs.part.related_part(rid)
@@ -808,7 +839,7 @@ class Run:
         rels = {r.id: r for r in pout.rels("/ppt/presentation.xml") or []}
         names = []
         lst = root.find("{%s}sldIdLst" % P)
-        for s in lst if lst is not None else []:
+        for s in [x for x in lst if isinstance(x.tag, str)] if lst is not None else []:
             r = rels.get(s.get("{%s}id" % opcx.NS_R))
             if r is not None:
                 names.append(r.target)
